@@ -433,7 +433,7 @@ pub fn run(args: Args) {
     let mut run = Run::new(
         args.clone(),
         "exploration",
-        "hook part: one case = (uuid, account|group, supplied gid or none) run through the real plugin rule; thorough enumerates all 2^32 uuid tails and all 2^32 supplied numbers, quick takes every range boundary +-2 plus an affine permutation prefix of 2^24 distinct tails and 2^24 distinct supplied numbers; every case is a distinct input (counted by construction). server part: random creates / modifies / batch modifies of posix accounts and groups with and without gid numbers, distinct by (operation, uuid, supplied)",
+        "hook part: one case = (uuid, account|group, supplied gid or none) run through the real plugin rule; thorough takes an affine permutation prefix of 2^29 distinct uuid tails and 2^29 distinct supplied numbers (all 2^32 of each with VERIF_C21_FULL=1), quick takes every range boundary +-2 plus an affine permutation prefix of 2^24 distinct tails and 2^24 distinct supplied numbers; every case is a distinct input (counted by construction). server part: random creates / modifies / batch modifies of posix accounts and groups with and without gid numbers, distinct by (operation, uuid, supplied)",
     );
     run.assume("verif::gidnumber::gid_for builds a posix entry with exactly (uuid, class, optional gidnumber) and calls the plugin's apply_gidnumber unchanged");
     run.assume("the nspawn range 524288..=1879048191 and everything >= 0x80000000 is outside the statement's reserved set: outcome counted, not judged");
@@ -476,9 +476,12 @@ pub fn run(args: Args) {
     // ---- part 1b: the sweep
     // thorough: all 2^32 tails and all 2^32 supplied values, split in contiguous blocks per worker.
     // quick: 2^24 distinct values each through an affine bijection of u32 (a odd).
-    let total: u64 = if thorough { 1u64 << 32 } else { 1u64 << 24 };
-    let a_mul: u32 = if thorough { 1 } else { (kvcore::rng::mix(seed, 1, 2102) as u32) | 1 };
-    let b_add: u32 = if thorough { 0 } else { kvcore::rng::mix(seed, 2, 2102) as u32 };
+    // the complete 2^32 enumeration takes about 40 minutes on 16 idle cores: only with VERIF_C21_FULL=1;
+    // the registered thorough tier takes 2^29 distinct values each.
+    let full = thorough && std::env::var("VERIF_C21_FULL").is_ok();
+    let total: u64 = if full { 1u64 << 32 } else if thorough { 1u64 << 29 } else { 1u64 << 24 };
+    let a_mul: u32 = if full { 1 } else { (kvcore::rng::mix(seed, 1, 2102) as u32) | 1 };
+    let b_add: u32 = if full { 0 } else { kvcore::rng::mix(seed, 2, 2102) as u32 };
     run.parallel(workers, |w, n| {
         let mut acc = Acc::new();
         let mut t = Tally::default();
@@ -508,8 +511,8 @@ pub fn run(args: Args) {
         acc
     });
     run.extra("sweep_values_each", json!(total));
-    run.extra("sweep_complete_u32_space", json!(thorough));
-    if thorough {
+    run.extra("sweep_complete_u32_space", json!(full));
+    if full {
         // complete enumeration of the two stated finite spaces (uuid tail bytes, supplied numbers)
         run.exhaustive = Some(true);
     }
